@@ -54,6 +54,9 @@ type options struct {
 	// Unpack/Pack/Get/...
 	parsed valueCache
 
+	// settings with references currently being unpacked into a typed target
+	reifying map[*cfgDynamic]struct{}
+
 	activeFields *fieldSet
 
 	// cycles counts the cyclic references detected so far. It is shared by
@@ -285,6 +288,7 @@ func makeOptions(opts []Option) *options {
 		activeFields: newFieldSet(nil),
 		maxIdx:       defaultMaxIdx,
 		cycles:       new(int),
+		reifying:     map[*cfgDynamic]struct{}{},
 	}
 	for _, opt := range opts {
 		opt(&o)
@@ -300,6 +304,23 @@ func (o *options) enterReference() func() {
 	parent := o.activeFields
 	o.activeFields = newFieldSet(parent)
 	return func() { o.activeFields = parent }
+}
+
+// enterDynamic registers a setting that holds references as being unpacked.
+// Coming across the same setting again while it is still being unpacked means
+// that it refers to an object that contains it ({a: {x: "${a}"}} into a
+// recursive type): that is a cyclic reference, not an endless structure.
+func (o *options) enterDynamic(val value) (func(), Error) {
+	dyn, ok := val.(*cfgDynamic)
+	if !ok {
+		return func() {}, nil
+	}
+	if _, active := o.reifying[dyn]; active {
+		ctx := dyn.Context()
+		return nil, raisePathErr(raiseCyclicErr(ctx.path(".")), dyn.meta(), "", ctx.path("."))
+	}
+	o.reifying[dyn] = struct{}{}
+	return func() { delete(o.reifying, dyn) }, nil
 }
 
 func (cache valueCache) cachedValue(
